@@ -21,6 +21,8 @@
      proposed_fixes/C15-*.diff.  Every theorem quantified over [v] holds for both.        *)
 From Coq Require Import List Arith Sorted Permutation.
 From RtrV Require Import Mgr.MgrModel Mgr.MgrProofs.
+From RtrV Require Mgr.MgrEff Gen.GeneratedMgr Mgr.MgrTie.
+From Coq Require Import ZArith.
 Import ListNotations.
 
 (* ---- initialisation: never accepts an empty list, a group without sockets or a duplicate
@@ -201,6 +203,36 @@ Example C15_add_remove_nonvacuous : exists c, after_history shipped [(5, 1)] [Op
   snd (step shipped c (OpAdd 9 0)) = [ORc RcInvalidParam].
 Proof. exact ex_add_remove. Qed.
 
+(* Tie (a) for the decision logic.  rtr_mgr_cb and everything below it - set_status, rtr_mgr_start_sockets, rtr_mgr_config_status_is_synced,
+   rtr_mgr_close_less_preferable_groups, get_best_inactive_rtr_mgr_group, is_some_rtr_mgr_group_established and the four _rtr_mgr_cb_state_*
+   - are translated from /repo/rtrlib/rtr_mgr.c on every run (tools/c2v_mgr.py -> Gen/GeneratedMgr.v; vocabulary Mgr/MgrEff.v: the
+   configuration as a heap of group stores in list order with their socket stores, a tommy-list walk as structural recursion over
+   the node count, the socket loops likewise, break / return inside loops, rtr_stop / rtr_start / the status callback as effect nodes
+   that get and give back the whole heap; the read lock is dropped).  Mgr/MgrTie.v proves: ONE CALLBACK AS TRANSLATED DOES WHAT THE
+   MODEL'S mgr_cb DOES - the same statuses and sockets of all groups afterwards, the same rtr_stop / rtr_start / status events in the
+   same order - for any number of groups and sockets, any statuses, preferences below 256 (uint8_t), a status callback installed, and
+   every model variant that has the shutdown repair (rtr_stop is interpreted by running the translated rtr_mgr_cb re-entrantly).
+   This also settles by proof which variant /repo is: the translated code differs from [shipped] on a concrete configuration
+   (MgrTie.ex_shipped_variant_differs).  group == NULL: nothing happens (mgr_cb_null).
+   The model leaves out: a NULL status callback, the bound on preferences (handled by the side conditions). *)
+Theorem C15_mgr_cb_translated : forall v, fix_shutdown_counts_closed v = true ->
+  forall c, Mgr.MgrTie.conf_ok c ->
+  forall a g b k st, Mgr.MgrTie.in_range (a ++ g :: b) ->
+  Mgr.MgrEff.mrun (Mgr.MgrTie.HM (Some (g_pref g)))
+    (Gen.GeneratedMgr.rtr_mgr_cb_gen (List.length a, k) (Mgr.MgrTie.sstate_code st) (Some (List.length a)) (Mgr.MgrTie.enc c (a ++ g :: b))) =
+  Some (0%Z, Mgr.MgrTie.enc c (fst (mgr_cb v a g b k st)), snd (mgr_cb v a g b k st)).
+Proof. exact Mgr.MgrTie.mgr_cb_tie. Qed.
+
+Theorem C15_mgr_cb_translated_current : forall c, Mgr.MgrTie.conf_ok c ->
+  forall a g b k st, Mgr.MgrTie.in_range (a ++ g :: b) ->
+  Mgr.MgrEff.mrun (Mgr.MgrTie.HM (Some (g_pref g)))
+    (Gen.GeneratedMgr.rtr_mgr_cb_gen (List.length a, k) (Mgr.MgrTie.sstate_code st) (Some (List.length a)) (Mgr.MgrTie.enc c (a ++ g :: b))) =
+  Some (0%Z, Mgr.MgrTie.enc c (fst (mgr_cb current a g b k st)), snd (mgr_cb current a g b k st)).
+Proof. exact (Mgr.MgrTie.mgr_cb_tie current eq_refl). Qed.
+
+Example C15_mgr_translator_clean : Gen.GeneratedMgr.mgr_translator_problems = nil.
+Proof. reflexivity. Qed.
+
 Print Assumptions C15_init.
 Print Assumptions C15_init_rejects_when_repaired.
 Print Assumptions C15_init_rejects_refuted.
@@ -217,3 +249,5 @@ Print Assumptions C15_no_failover_while_established.
 Print Assumptions C15_defined.
 Print Assumptions C15_full_when_repaired.
 Print Assumptions C15_refuted.
+Print Assumptions C15_mgr_cb_translated.
+Print Assumptions C15_mgr_cb_translated_current.
